@@ -8,7 +8,10 @@
      who   "p1".."p3" (producer), "convoy#i" (i-th worker goroutine that showed up), "reset" (next walk starts)
      from / to   the yield points; they are the program counters of the specification under another spelling
      ch    at acquire.store: ordinal (by first appearance) of the channel the new queue object got from the pool
-   What is not logged is inferred by TLC: which queue id a worker goroutine serves. *)
+   What is not logged is inferred by TLC: which queue id a worker goroutine serves.
+   sync.Pool promises nothing about WHICH pooled object Get returns (a garbage collection between two Puts moves the first
+   one to the victim cache, two collections drop it): here a creation may take any pooled channel or a fresh one, and the
+   logged ordinal decides.  (UdpTaskPool.tla keeps the deterministic private-slot + chain order for exhaustive checking.) *)
 EXTENDS UdpTaskPool, Json
 
 Trace == ndJsonDeserialize("trace.ndjson")
@@ -33,11 +36,30 @@ IsProducer == l <= Len(Trace) /\ Line.who \in Producers
 IsConvoy == l <= Len(Trace) /\ Line.kind = "c"
 IsReset == l <= Len(Trace) /\ Line.kind = "reset"
 
+PooledChans == (IF poolPriv = NoC THEN {} ELSE {poolPriv}) \cup {poolShared[i] : i \in DOMAIN poolShared}
+NextFresh == IF fresh = {} THEN {} ELSE {CHOOSE c \in fresh : \A d \in fresh : c <= d}
+TakeFromPool(c) == IF c = poolPriv THEN /\ poolPriv' = NoC /\ UNCHANGED <<poolShared, fresh>>
+                   ELSE IF c \in PooledChans THEN /\ poolShared' = SelectSeq(poolShared, LAMBDA x : x # c) /\ UNCHANGED <<poolPriv, fresh>>
+                   ELSE /\ fresh' = fresh \ {c} /\ UNCHANGED <<poolPriv, poolShared>>
+\* PCreate of UdpTaskPool.tla with the channel left open
+PCreateAny(p) ==
+  /\ ppc[p] = "create"
+  /\ \E c \in PooledChans \cup NextFresh :
+       /\ \E q \in QIds :
+            /\ qkey[q] = "none" /\ \A r \in QIds : (qkey[r] = "none" => q <= r)
+            /\ qkey' = [qkey EXCEPT ![q] = KeyOf[p]]
+            /\ chanOf' = [chanOf EXCEPT ![q] = c]
+            /\ pnew' = [pnew EXCEPT ![p] = q]
+       /\ TakeFromPool(c)
+  /\ ppc' = [ppc EXCEPT ![p] = "store"]
+  /\ H([a |-> "PCreate", p |-> p])
+  /\ UNCHANGED <<map, refs, chans, overflow, ovMode, cpc, running, pq, pn, accepted, executed, timers>>
+
 ProducerStep ==
   /\ IsProducer
   /\ LET p == Line.who IN
      /\ ppc[p] = PPc(Line.from)
-     /\ \/ PLoad(p) \/ PCas1(p) \/ PCreate(p) \/ PLoadOrStore(p) \/ PCas2(p) \/ PEnq(p) \/ PRel(p)
+     /\ \/ PLoad(p) \/ PCas1(p) \/ PCreateAny(p) \/ PLoadOrStore(p) \/ PCas2(p) \/ PEnq(p) \/ PRel(p)
      /\ ppc'[p] = PPc(Line.to)
      /\ (Line.to = "acquire.store" => chanOf'[pnew'[p]] = Line.ch)      \* the channel the pool handed out
   /\ l' = l + 1 /\ UNCHANGED cmap
